@@ -153,6 +153,8 @@ MUTANTS = [
     M("ft18-keep-inside", "types.py", "type_base.__setitem__", "curr & ~msk", "curr & msk", ["C18"], "FT18"),
     M("ft18-narrow-mask", "types.py", "type_base.__setitem__", "rng.start - rng.stop + 1", "rng.start - rng.stop", ["C18"], "FT18"),
     M("ft3-iter-raw", "types.py", "__next__", "ei.v2e(self.model.field_l[self.idx].get_val())", "int(self.model.field_l[self.idx].get_val())", ["C18"], "FT3"),
+    M("ft23-clear-model-only", "types.py", "list_t.clear", "self.backing_arr.clear()", "pass", ["C04"], "FT23"),
+    M("cv12-no-width", "coverage.py", "wildcard_bin_array.__init__", "WildcardBinFactory.str2width(a)", "0", ["C19"], "CV12"),
     M("sr1-save-after-write", "model/rand_info_builder.py", "RandInfoBuilder.visit_composite_field", "old_used_rand = self._used_rand\nself._used_rand = f.is_used_rand",
       "self._used_rand = f.is_used_rand\nold_used_rand = self._used_rand", ["C02"], "SR1"),
     M("sc1-implies-marker", "model/constraint_implies_model.py", "ConstraintImpliesModel.__init__", "self.cond = cond", "self.cond = cond\nself.priority = 0", ["C01", "C05"], "SC1"),
